@@ -295,16 +295,33 @@ func vfC13Judge(w *vfWorld, cfg *vfCfg, sc *vfC13Scenario, b *vfBrowser, r *vfRe
 	vfC13Identity(w, cfg, sc, r, label)
 	intactRead, writeAcked, anyFault := true, true, false
 	pingFailed := false
+	// a read that failed or came back altered and was then REPEATED successfully within the request (same key, no fault, no
+	// error) is not a failed read: the property is about failures, not about the absence of retries
+	reread := func(ev *vfRedisEvent) bool {
+		if w.redis == nil || ev.Name != "GET" {
+			return false
+		}
+		for _, later := range w.redis.Events() {
+			if later.Idx > ev.Idx && later.Name == "GET" && later.Key == ev.Key && later.Err == "" && (later.Fault.Kind == vfRFNone || later.Fault.Kind == vfRFSlow) {
+				return true
+			}
+		}
+		return false
+	}
 	for _, ev := range fired {
 		anyFault = true
 		switch ev.Fault.Kind {
 		case vfRFSlow:
 		case vfRFCorrupt, vfRFTruncate, vfRFMissing, vfRFEvict, vfRFOtherValue, vfRFGarbage:
-			intactRead = false
+			if !reread(ev) {
+				intactRead = false
+			}
 		default: // error / timeout kinds
 			switch ev.Name {
 			case "GET":
-				intactRead = false
+				if !reread(ev) {
+					intactRead = false
+				}
 			case "SET":
 				writeAcked = false
 			case "PING":
@@ -361,7 +378,7 @@ func vfC13Judge(w *vfWorld, cfg *vfCfg, sc *vfC13Scenario, b *vfBrowser, r *vfRe
 			w.violate("C13", "fault-free-not-served", sc.Name, "%s: status %d", label, r.Status)
 		}
 		for _, ev := range fired {
-			if ev.Name == "GET" && ev.Fault.Kind != vfRFSlow && served {
+			if ev.Name == "GET" && ev.Fault.Kind != vfRFSlow && served && !reread(ev) {
 				w.violate("C13", "served-after-failed-read", sc.Name, "%s: session read #%d failed/altered, yet served", label, ev.Idx)
 			}
 			// the lock operation itself failed (an error or a timeout was returned to the proxy - not "somebody else holds
